@@ -349,6 +349,10 @@ class RaisedException(object):
     exc.details = safe_shift(args)
     exc.user_input = safe_shift(args, {})
     exc.user_input = decode_object(exc.user_input.get("u", RaisedException.NO_INPUT))
+    if exc._name:
+      # Stand-in for the original exception (of a class with the same name), so that a formula
+      # reading this cell reports the same error as it did before the value was saved and loaded.
+      exc.error = type(str(exc._name), (Exception,), {})(exc._message or '')
     return exc
 
 class CellError(Exception):
